@@ -3,7 +3,7 @@
 # worktree of /repo HEAD and runs ./check <property> against it; prints one verdict line per seed.  Does not run the demos.
 cd /verif
 export VERIF_KANI_TARGET=${VERIF_KANI_TARGET:-/verif/.cache/kani-target}
-ids="$@"; [ -z "$ids" ] && ids=$(ls seeded)
+ids="$@"; [ -z "$ids" ] && ids=$(ls -d seeded/*/ | xargs -n1 basename)
 for id in $ids; do
   pid=$(python3 -c "import json;print(json.load(open('seeded/$id/meta.json'))['property'])")
   wt=$(mktemp -d /tmp/seedrun-XXXXXX); rmdir $wt
